@@ -194,6 +194,11 @@ func rewrite(path string, fc FileCfg, module string) ([]byte, error) {
 				ok := true
 				for _, c := range x.Body.List {
 					cc := c.(*ast.CommClause)
+					if ss, isSend := cc.Comm.(*ast.SendStmt); isSend {
+						// `case ch <- v:` (a non-blocking nudge on a buffered channel, typically)
+						chans = append(chans, "vsched.SendCase{Ch: "+string(src[off(ss.Chan.Pos()):off(ss.Chan.End())])+", V: "+string(src[off(ss.Value.Pos()):off(ss.Value.End())])+"}")
+						continue
+					}
 					es, isExpr := cc.Comm.(*ast.ExprStmt)
 					if !isExpr {
 						ok = false
